@@ -9,6 +9,9 @@ mdir="$(realpath "$1")"; id="$2"; tier="${3:-quick}"
 wt=${SEED_WT:-/tmp/wt-seed}
 [ -d "$wt" ] || git -C /repo worktree add --detach "$wt" HEAD >/dev/null 2>&1
 git -C "$wt" reset -q --hard HEAD; git -C "$wt" clean -qfd -e .vh -e target >/dev/null; rm -rf "$wt/MUTANT"
+# the scratch worktree follows /repo's HEAD (patches are made against an earlier HEAD of the same tree)
+head="$(git -C /repo rev-parse HEAD)"
+if [ "$(git -C "$wt" rev-parse HEAD)" != "$head" ]; then git -C "$wt" checkout -q --detach "$head"; rm -f /tmp/baseline-fails.txt; fi
 export CARGO_NET_OFFLINE=true RUST_BACKTRACE=0
 fails() { (cd "$wt" && cargo test --workspace --no-fail-fast --offline 2>&1 | grep -E '^test .* \.\.\. FAILED' | grep -v '^test result' | sed 's/ \.\.\. FAILED.*//' | sort -u); }
 if [ ! -f /tmp/baseline-fails.txt ]; then fails > /tmp/baseline-fails.txt; fi
@@ -26,7 +29,13 @@ if [ -f "$mdir/demo/run.sh" ]; then
 	(cd "$wt" && sh "$wt/MUTANT/$x/demo/run.sh" >/tmp/demo-with.log 2>&1); demo_with=$?
 fi
 # 4. the check against the mutant
-"$(dirname "$0")/mutant-run.sh" "$wt" "$id" "$tier" >/tmp/check-mutant.log 2>&1; check_rc=$?
+: > /tmp/check-mutant.log; check_rc=0
+for one in $(echo "$id" | tr ',' ' '); do
+	echo "== check $one" >> /tmp/check-mutant.log
+	"$(dirname "$0")/mutant-run.sh" "$wt" "$one" "$tier" >>/tmp/check-mutant.log 2>&1; rc=$?
+	[ $rc -gt $check_rc ] && check_rc=$rc
+	[ $rc -eq 1 ] && break
+done
 viol="$(grep -E '^VIOLATION|violation in phase|signature:' /tmp/check-mutant.log | head -5)"
 # 5. demo without the patch (must pass)
 git -C "$wt" apply -R "$mdir/patch.diff"
